@@ -592,7 +592,15 @@ func e2e(c *kit.Case) {
 			w.Write([]byte(sb.String()))
 		}})
 	}
-	go srv.Start()
+	startPanic := make(chan any, 1)
+	go func() {
+		defer func() {
+			if p := recover(); p != nil {
+				startPanic <- p
+			}
+		}()
+		srv.Start()
+	}()
 	defer srv.Stop()
 	base := fmt.Sprintf("http://127.0.0.1:%d", port)
 	up := false
@@ -606,7 +614,12 @@ func e2e(c *kit.Case) {
 		time.Sleep(10 * time.Millisecond)
 	}
 	if !up {
-		c.Inconclusive("rest.Server did not start listening")
+		select {
+		case p := <-startPanic:
+			c.Inconclusive(fmt.Sprintf("rest.Server could not start (port taken?): %v", p))
+		default:
+			c.Inconclusive("rest.Server did not start listening")
+		}
 		return
 	}
 	client := &http.Client{Timeout: 20 * time.Second}
